@@ -37,11 +37,28 @@ def sha256_file(path):
 # generated module summary
 # --------------------------------------------------------------------------
 def _summarise_chunk(args):
-    text, first_line, want_ast_names = args
+    text, first_line, helper_src = args
     tree = ast.parse(text)
     if first_line > 1:
         ast.increment_lineno(tree, first_line - 1)
-    return _summarise_body(tree.body)
+    return _summarise_body(tree.body, _parse_helpers(helper_src))
+
+def _parse_helpers(helper_src):
+    """hand-written helper functions of the generated module (anything that is not decode_pgn_* / encode_pgn_* / is_fast_pgn_*):
+    walked in place where a generated function calls them"""
+    out = {}
+    for src, line in helper_src or ():
+        try:
+            t = ast.parse(src)
+        except SyntaxError:
+            continue
+        ast.increment_lineno(t, line - 1)
+        for n in t.body:
+            if isinstance(n, ast.FunctionDef):
+                out[n.name] = n
+    return out
+
+_GEN_PREFIXES = ('decode_pgn_', 'encode_pgn_', 'is_fast_pgn_', 'lookup_')
 
 def _literal(node):
     try:
@@ -96,13 +113,15 @@ def _effects(fn):
                 muts.append((root.id, how, n.lineno))
     return {'assigned': sorted(assigned), 'globals': sorted(globs), 'global_mutations': muts}
 
-def _summarise_body(body):
+def _summarise_body(body, helpers=None):
     out = []
     for node in body:
         if isinstance(node, (ast.FunctionDef, ast.AsyncFunctionDef)):
             s = {'kind': 'def', 'name': node.name, 'line': node.lineno, 'end': node.end_lineno,
                  'async': isinstance(node, ast.AsyncFunctionDef), 'decorators': len(node.decorator_list)}
-            ex = sym.SymExec(node)
+            if helpers and not node.name.startswith(_GEN_PREFIXES):
+                s['helper'] = True
+            ex = sym.SymExec(node, inline={k: v for k, v in (helpers or {}).items() if k != node.name})
             try:
                 ex.run()
                 s['events'] = ex.events
@@ -146,6 +165,17 @@ def summarise_generated(path, jobs=None):
     starts = [i for i, l in enumerate(lines) if _COL0.match(l)]
     jobs = jobs or min(16, os.cpu_count() or 4)
     summaries = None
+    # helper functions written by hand into the generated module
+    helper_src = []
+    for k, i in enumerate(starts):
+        m = re.match(r'def (\w+)\(', lines[i])
+        if m and not m.group(1).startswith(_GEN_PREFIXES):
+            j = starts[k + 1] if k + 1 < len(starts) else len(lines)
+            # a decorator line directly above belongs to it; decorated helpers are not inlined
+            if i > 0 and lines[i - 1].startswith('@'):
+                continue
+            helper_src.append(('\n'.join(lines[i:j]) + '\n', i + 1))
+    helper_src = tuple(helper_src)
     if len(starts) > 64 and jobs > 1:
         per = max(1, len(starts) // (jobs * 4))
         cuts = starts[::per]
@@ -153,7 +183,7 @@ def summarise_generated(path, jobs=None):
             cuts = [0] + cuts
         chunks = []
         for a, b in zip(cuts, cuts[1:] + [len(lines)]):
-            chunks.append(('\n'.join(lines[a:b]) + '\n', a + 1, None))
+            chunks.append(('\n'.join(lines[a:b]) + '\n', a + 1, helper_src))
         try:
             with ProcessPoolExecutor(max_workers=jobs) as ex:
                 parts = list(ex.map(_summarise_chunk, chunks))
@@ -162,7 +192,7 @@ def summarise_generated(path, jobs=None):
             summaries = None
     if summaries is None:
         tree = ast.parse(text)
-        summaries = _summarise_body(tree.body)
+        summaries = _summarise_body(tree.body, _parse_helpers(helper_src))
     return summaries, len(lines)
 
 # --------------------------------------------------------------------------
